@@ -103,3 +103,49 @@ Theorem enum_order :
 Proof. exact TableTie.enum_order. Qed.
 Print Assumptions enum_order.
 
+
+(* ---- JSON documents: Evaluate is the documented interpreter (Json.v, JsonOps.v, JsonEval.v) ---- *)
+From Coq Require Import List String ZArith NArith Bool. From Bexpr Require Import Base Strconv Ast Univ Eval Typing Lexical LexEval Json JsonOps JsonEval. Import ListNotations.
+
+Theorem get_json :
+  forall (cfg : config) (path : list string) (j : json),
+  hook cfg = None ->
+  get cfg path (doc j) =
+  match jwalk path j with
+  | JFound x => Ok (doc x)
+  | JNotFound => Err ENotFound
+  | JOutOfRange => Err EOutOfRange
+  | JBadIndex => Err EConvert
+  | JInvalidKind => Err EInvalidKind
+  end.
+Proof. exact Json.get_json. Qed.
+Print Assumptions get_json.
+
+Theorem walk_example :
+  jwalk ["a"; "b"; "1"] (JObj [("a", JObj [("b", JArr [JNum 0; JStr "x"])])]) = JFound (JStr "x").
+Proof. exact Json.walk_example. Qed.
+Print Assumptions walk_example.
+
+Theorem match_op_json :
+  forall (re : string -> string -> option bool) (op : matchop) (raw : option string) (j : json),
+  (has_value op = true -> raw <> None) -> match_op re op raw (doc j) <> Panic /\ clean (match_op re op raw (doc j)) = jmatch re op raw j.
+Proof. exact JsonOps.match_op_json. Qed.
+Print Assumptions match_op_json.
+
+Theorem json_eval :
+  forall (re : string -> string -> option bool) (cfg : config) (e : expr) (root : json),
+  hook cfg = None ->
+  unknown cfg = None -> wf_ast e -> eval re cfg [] e (doc root) <> Panic /\ clean (eval re cfg [] e (doc root)) = jeval re [] e root.
+Proof. exact JsonEval.json_eval. Qed.
+Print Assumptions json_eval.
+
+Theorem json_eval_example :
+  let root := JObj [("items", JArr [JObj [("n", JNum 0); ("tags", JArr [JStr "a"])]; JObj [("n", JNum 0)]]); ("name", JStr "x")] in
+  let e :=
+    EBin BAnd (EMatch {| stype := SelBexpr; spath := ["name"] |} OpEq (Some "x"))
+      (EColl CAny {| stype := SelBexpr; spath := ["items"] |} {| bmode := BDefault; bdefault := "it"; bindex := ""; bvalue := "" |}
+         (EMatch {| stype := SelBexpr; spath := ["it"; "tags"] |} OpIsEmpty None)) in
+  jeval (fun _ _ : string => None) [] e root = Some true.
+Proof. exact JsonEval.json_eval_example. Qed.
+Print Assumptions json_eval_example.
+
